@@ -15,7 +15,8 @@
 //       bracketings (pairwise calls) and of the n-ary call on every permutation are compared with
 //       eq and by dump.  Output:
 //           n=<combinations> classes=<distinct results by eq> TAB <form 1> => <dump 1> TAB ...
-//       (one representative form per class; forms are recipes over $0..$n-1), followed by the
+//       (one representative form per class; forms are recipes over $0..$n-1), followed by
+//       "TAB ops TAB <dump of operand 0> TAB ...", the
 //       distinct pairwise call records (as in T) after "TAB calls TAB", and
 //       "\t#ORACLE:nonunique" when there is more than one class.
 //   V <recipe> ;; <sym>=<number recipe> ;; ...
@@ -433,6 +434,9 @@ static std::string mode_perm(const std::string &body)
         else
             o << result_fields(classes[k].value);
     }
+    o << "\tops";
+    for (auto &f : ops)
+        o << "\t" << (f.value.is_null() ? std::string("-") : verif::dump(*f.value));
     o << "\tcalls\t" << g_calls_out;
     if (classes.size() > 1)
         o << "\t#ORACLE:nonunique";
